@@ -108,7 +108,9 @@ func VsymC44_Read() {
 	d := newDualS3Client(primary, replica)
 	var rng *storage.ByteRange
 	if ranged && !useIndex {
-		rng = &storage.ByteRange{Start: 1, End: 2}
+		// any range over (and just past) the 3-byte object: start 0..3 (3 is out of range), end start..start+2 (clamped by the store)
+		rs := vsym_Choose("rangeStart", 4)
+		rng = &storage.ByteRange{Start: int64(rs), End: int64(rs + vsym_Choose("rangeExtra", 3))}
 	}
 	var got, want []byte
 	var err, werr error
@@ -130,7 +132,15 @@ func VsymC44_Read() {
 		// an exact replica copy may be served although the primary is unreachable
 		exp := data
 		if rng != nil {
-			exp = data[1:3]
+			if rng.Start >= 3 {
+				vsym_Assert(err != nil, "C44/read-equals-primary")
+				return
+			}
+			end := rng.End
+			if end > 2 {
+				end = 2
+			}
+			exp = data[rng.Start : end+1]
 		}
 		vsym_Assert(err != nil || (len(got) == len(exp) && vsym_BytesEq(got, exp)), "C44/read-equals-primary")
 		return
